@@ -19,9 +19,9 @@ import (
 
 func init() {
 	Registry["C13"] = Spec{
-		Fn:    c13,
-		Level: "fault_enumeration",
-		Rule: "configurations: client revision x server revision over every feature-threshold neighbour (all pairs in thorough, a covering sample in quick) x credentials/database/quota-key strings (empty, long, non-UTF8) x Connect and Dial. Answers: hello; hello delayed by 1..5 read-deadline expiries (far below the handshake timeout); exception chain; every other server packet kind; garbage; the hello cut after every byte (then EOF or reset); immediate EOF; silence until a short handshake timeout. Oracle: after success the follow-up query is parsed by the reference codec at min(c,s), a Progress packet encoded at min(c,s) is decoded exactly, ServerInfo() equals the hello (fields gated by the client's revision), the addendum is present iff min(c,s) >= 54458, hello fields are as configured; after failure: non-nil error (carrying the exception), nil client, a dialed connection closed, no library goroutine left. Non-trivial = c != s or a failing answer; distinct = (c, s, answer kind)",
+		Fn:          c13,
+		Level:       "fault_enumeration",
+		Rule:        "configurations: client revision x server revision over every feature-threshold neighbour (all pairs in thorough, a covering sample in quick) x credentials/database/quota-key strings (empty, long, non-UTF8) x Connect and Dial. Answers: hello; hello delayed by 1..5 read-deadline expiries (far below the handshake timeout); exception chain; every other server packet kind; garbage; the hello cut after every byte (then EOF or reset); immediate EOF; silence until a short handshake timeout. Oracle: after success the follow-up query is parsed by the reference codec at min(c,s), a Progress packet encoded at min(c,s) is decoded exactly, ServerInfo() equals the hello (fields gated by the client's revision), the addendum is present iff min(c,s) >= 54458, hello fields are as configured; after failure: non-nil error (carrying the exception), nil client, a dialed connection closed, no library goroutine left. Non-trivial = c != s or a failing answer; distinct = (c, s, answer kind)",
 		Assumptions: []string{"handshake timeouts are real but short (150 ms) and only the returned error / closed state is judged, never elapsed time"},
 		MinDistinct: 200,
 	}
